@@ -169,10 +169,13 @@ func (c *Ctx) isAdvanceValue(v ssa.Value, isBase func(ssa.Value) bool) bool {
 	return false
 }
 
-func (w *scanWalker) walk(f *ssa.Function, depth int) walkOutcome {
+func (w *scanWalker) walk(f *ssa.Function, depth int, args ...LV) walkOutcome {
 	res := &FoldResult{Fn: f, Reach: map[*ssa.BasicBlock]bool{}, Edge: map[[2]int]bool{}, Vals: map[ssa.Value]LV{}}
-	for _, p := range f.Params {
+	for i, p := range f.Params {
 		res.Vals[p] = bottom
+		if i < len(args) && args[i].K == lConst {
+			res.Vals[p] = args[i] // e.g. the decoded size or the token kinds handed to an arm helper
+		}
 	}
 	for _, fv := range f.FreeVars {
 		res.Vals[fv] = bottom
@@ -272,7 +275,11 @@ func (w *scanWalker) walkFrom(f *ssa.Function, depth int, res *FoldResult, visit
 			case *ssa.Call:
 				cal := calleeOf(x)
 				if cal != nil && c.inModule(cal) && c.PosWriters()[cal] && peekKind(cal) == "" && depth < 5 {
-					sub := w.walk(cal, depth+1)
+					var cargs []LV
+					for _, a := range x.Call.Args {
+						cargs = append(cargs, fo.operand(res, a))
+					}
+					sub := w.walk(cal, depth+1, cargs...)
 					path = append(path, sub.Path...)
 					switch sub.Kind {
 					case "advanced", "undecided", "looped":
